@@ -102,7 +102,9 @@ NOTES = {
   "C10.T: pause / resume commands addressed to the root or to one of two "
   "sub-workflows (with-items and join shapes) at solver-chosen points: an "
   "execution the operator holds paused stays PAUSED after every delivery, "
-  "and the released tree finishes like an unpaused run (found F29, F30)."),
+  "and the released tree finishes like an unpaused run (found F29, F30).  "
+  "C10.W: the pause lands while a with-items task (concurrency none / 1 / "
+  "2) or a retry + wait-after is in flight."),
  'C11': ('stop / cancel end the whole tree; late results change nothing',
   "Whole runs with a stop (state and position symbolic, optionally after a "
   "pause, on the root or on a sub-workflow, also while commands wait in the "
